@@ -38,7 +38,7 @@ def gen_list(rng, cfg, enc, n, big=False):
         for attempt in range(6):
             if big and rng.random() < 0.3:
                 lll = [b for b in gen.data_bits(cfg) if cfg[str(b)]['field_type'] == 'LLLVAR' and not cfg[str(b)].get('field_processor')
-                       and not cfg[str(b)].get('field_python_type')]
+                       and gen.is_text(cfg[str(b)])]
                 take = rng.sample(lll, min(len(lll), rng.randint(2, 5)))
                 m = gen.gen_message(rng, cfg, enc, subset=take, pds_mode='none', lengths={b: rng.randint(900, 999) for b in take})
                 if ref.carriers_of(cfg) and rng.random() < 0.5:
